@@ -298,7 +298,7 @@ func (m *monitor) run(line string) string {
 	var before *obsv
 	isTx := false
 	switch t[0] {
-	case "apply", "add", "refund", "chacc", "bad":
+	case "apply", "add", "refund", "chacc", "bad", "node":
 		isTx = true
 		before = m.prev
 	}
@@ -357,7 +357,7 @@ func (m *monitor) run(line string) string {
 		}
 		m.prev = w.observe()
 		return res
-	case "dump", "config":
+	case "dump", "config", "nodecode":
 		return res
 	case "rewind":
 		// the ledger goes back to the block start; the key cache does not
@@ -385,7 +385,12 @@ func (m *monitor) run(line string) string {
 		return m.ledger[id]
 	}
 	u := func(s string) *big.Int { v, _ := new(big.Int).SetString(s, 10); return v }
-	if isTx && res == "ok" {
+	if isTx && res == "ok" && t[0] == "node" {
+		m.dirty = true
+		for k := range o.byID {
+			m.touched[k] = true // its target is found by account, not named: the block touched the registry
+		}
+	} else if isTx && res == "ok" {
 		m.dirty = true
 		if t[0] == "apply" || t[0] == "chacc" {
 			m.acctSet[t[2]] = m.blockNo
@@ -479,6 +484,12 @@ func (m *monitor) run(line string) string {
 	// exactly "wealth grew, by no more than the requested amount, in a vmunstake whose amount is not what was released"
 	// (fractional tokens, or MaxUint64 whole tokens = "everything")
 	growth := new(big.Int).Sub(o.wealth(), prev.wealth())
+	if t[0] == "node" && res == "ok" && growth.Cmp(new(big.Int).Neg(new(big.Int).Mul(big.NewInt(10), e18big))) == 0 {
+		// the accepted operator-node transaction debits 10 tokens and credits nobody
+		m.report("operator-node-burns-10-rpg", fmt.Sprintf("%s => %s: liquid+staked+escrow+pending %s -> %s", line, res, prev.wealth(), o.wealth()))
+		growth = new(big.Int)
+		prev = o
+	}
 	if t[0] == "vmunstake" && growth.Sign() > 0 && growth.Cmp(u(t[3])) <= 0 && !m.collided("") {
 		m.report("unstake-opcode-escrows-untruncated-amount", fmt.Sprintf("%s => %s: liquid+staked+escrow+pending %s -> %s", line, res, prev.wealth(), o.wealth()))
 	} else if prev.wealth().Cmp(o.wealth()) != 0 {
@@ -530,11 +541,14 @@ func (m *monitor) run(line string) string {
 		if !ok || ir.stake != r.stake || ir.status != r.status || !bytes.Equal(ir.account, r.account) || ir.typ != r.typ || ir.applyH != r.applyH {
 			m.report(m.classifyID("lookup-disagree", k, false, true), fmt.Sprintf("after %s: miner %s by id %+v, by iterator present=%v %+v", line, k, *r, ok, ir))
 		}
-		got := o.byAcct[hx.Hex(r.account)]
+		got, asked := o.byAcct[hx.Hex(r.account)]
+		if !asked { // an account outside the declared universe (e.g. produced by the operator-node contract): ask now
+			got = service.MinerManagerImpl.GetMinerIdByAccount(r.account, w.adb)
+		}
 		if got == nil {
 			m.report(m.classifyID("lookup-disagree", k, false, true), fmt.Sprintf("after %s: miner %s has account %s but GetMinerIdByAccount finds none", line, k, hx.Hex(r.account)))
 		} else if gr := o.byID[hx.Hex(got)]; gr == nil || !bytes.Equal(gr.account, r.account) {
-			m.report(m.classifyID("lookup-disagree", k, false, true), fmt.Sprintf("after %s: GetMinerIdByAccount(%s) = %s whose record does not carry that account", line, hx.Hex(r.account), hx.Hex(got)))
+			m.report(m.classifyID("lookup-disagree", hx.Hex(got), false, true), fmt.Sprintf("after %s: GetMinerIdByAccount(%s) = %s whose record does not carry that account", line, hx.Hex(r.account), hx.Hex(got)))
 		}
 		if r.typ == common.MinerTypeProposer && r.status == common.MinerStatusNormal {
 			sum += r.stake
@@ -688,6 +702,8 @@ func witnesses() map[string][]string {
 			"refund "+a1+" 11 "+maxU64, "apply "+a1+" 11 0 800 - 09 01", "rewind", "endblock 102"),
 		"reader-panics-on-long-id": append(pre(strings.Repeat("33", 33)),
 			"apply "+a1+" "+strings.Repeat("33", 33)+" 0 400 - 01 01", "endblock 101"),
+		"operator-node-burns-10-rpg": append(pre("11"),
+			"nodecode", "apply "+a1+" 11 0 800 - 01 01", "endblock 101", "node "+a1, "endblock 102"),
 		"refund-lost-second-account": append(pre("11,22"),
 			"apply "+a1+" 11 0 800 - 01 01", "apply "+a2+" 22 0 800 - 01 01", "endblock 101",
 			"refund "+a1+" 11 100", "refund "+a2+" 22 100", "endblock 102"),
